@@ -334,6 +334,27 @@ def tensorSimilarity [DecidableEq α] [Inhabited ν] (l r : TView ν α) : Bool 
     if leftShape ≠ rightAccess.shape then false
     else (leftAccess.iter.zip rightAccess.iter).all fun p => decide (p.1 = p.2)
 
+/-! ### equality and similarity for an arbitrary element comparison
+
+`tensor_equality` / `tensor_similarity` only require `T: PartialEq`; nothing makes `==` reflexive
+(`f64`: `NaN != NaN`).  These are the same two functions with the element comparison as a
+parameter; `tensorEquality` / `tensorSimilarity` above are the instances at `decide (· = ·)`. -/
+
+/-- `tensor_equality` with the element type's `==` given as `rel` -/
+def tensorEqualityBy (rel : α → α → Bool) (l r : TView ν α) : Bool :=
+  decide (l.shape = r.shape) && (l.iter.zip r.iter).all fun p => rel p.1 p.2
+
+/-- `tensor_similarity` with the element type's `==` given as `rel` -/
+def tensorSimilarityBy [Inhabited ν] (rel : α → α → Bool) (l r : TView ν α) : Bool :=
+  let leftShape := l.shape
+  let accessOrder := leftShape.map (·.1)
+  let leftAccess := l.accessSourceOrder
+  match r.access accessOrder with
+  | none => false
+  | some rightAccess =>
+    if leftShape ≠ rightAccess.shape then false
+    else (leftAccess.iter.zip rightAccess.iter).all fun p => rel p.1 p.2
+
 /-! ### further constructors and shape look-ups (driven by C01) -/
 
 /-- `Tensor::from_fn`: `ShapeIterator::from(shape)`, `producer(index)` pushed for every index
